@@ -12,10 +12,12 @@ Range(s) == { s[i] : i \in DOMAIN s }
 
 RInit(e) ==
   IF e.kind = "pick"
-  THEN [kind |-> "pick", cfg |-> [reg |-> Range(e.registry), star |-> e.star, default |-> e.default],
+  THEN [kind |-> "pick", cfg |-> [reg |-> Range(e.registry), star |-> e.star, default |-> e.default, defForm |-> e.default_form],
         h |-> e.header, status |-> e.status, opClient |-> e.op_client, opCtx |-> e.op_ctx, rtCtx |-> e.rt_ctx]
   ELSE IF e.kind = "conc"
   THEN [kind |-> "conc", n |-> e.n, mode |-> e.mode, gates |-> e.gates, seen |-> {}]
+  ELSE IF e.kind = "retain" THEN [kind |-> "retain", n |-> e.calls, seen |-> {}]
+  ELSE IF e.kind = "clientlat" THEN [kind |-> "clientlat", opc |-> e.op_client, rtMarker |-> e.rt_marker, rtJar |-> e.rt_jar]
   ELSE [kind |-> "race"]
 
 CtxObs(e) == [op_value |-> e.ctx_op_value, rt_value |-> e.ctx_rt_value, err |-> e.ctx_err, short |-> e.ctx_short]
@@ -53,6 +55,7 @@ ConcOK(s, e) ==
          /\ e.got_body = e.sent /\ e.got_hdr = e.sent          \* the response to its own request
          /\ e.consumer_id = e.want_consumer
          /\ e.used_client = e.want_client
+         /\ e.retained_ok                                        \* the response its reader kept is still its own
     [] e.ev = "done" -> s.seen = 1..s.n /\ e.rt_calls = s.n /\ e.distinct_tokens = s.n
     [] OTHER -> FALSE
 
@@ -62,20 +65,44 @@ ConcWhy(s, e) ==
          IF e.panic \/ e.failed THEN "concurrent-call-failed"
          ELSE IF e.got_body # e.sent \/ e.got_hdr # e.sent THEN "caller-received-another-callers-response"
          ELSE IF e.consumer_id # e.want_consumer THEN "wrong-consumer-under-concurrency"
+         ELSE IF ~e.retained_ok THEN "retained-response-shows-another-call"
          ELSE "wrong-client-under-concurrency"
     [] e.ev = "done" -> "exchanges-lost-or-duplicated"
     [] OTHER -> "unknown-event"
 
+\* a reader may keep the response it was handed: it keeps showing that call's status, headers and body
+RetainOK(s, e) ==
+  CASE e.ev = "retained" -> /\ e.i \in 1..s.n /\ e.i \notin s.seen /\ ~e.failed /\ e.in_reader_ok
+                            /\ e.code_ok /\ e.message_ok /\ e.header_ok /\ e.body_same
+    [] e.ev = "retain_done" -> s.seen = 1..s.n /\ e.calls = s.n
+    [] OTHER -> FALSE
+
+\* what the server saw: the operation client exactly as given, nothing of the runtime's mixed in
+WireOK(s, e) ==
+  /\ e.ev = "wire" /\ e.result_ok /\ e.requests = 1
+  /\ WireAllowed(s.opc, s.rtMarker, s.rtJar,
+                 [rt_marker |-> e.rt_marker, op_marker |-> e.op_marker, rt_cookie |-> e.rt_cookie, op_cookie |-> e.op_cookie])
+
 MAllowed(s, e) ==
   CASE s.kind = "pick" -> e.ev = "submit" /\ PickOK(s, e)
     [] s.kind = "conc" -> ConcOK(s, e)
+    [] s.kind = "retain" -> RetainOK(s, e)
+    [] s.kind = "clientlat" -> WireOK(s, e)
     [] OTHER -> e.ev = "race" /\ e.reports = 0                  \* no data race reported on any of the runs
 
-MStep(s, e) == IF s.kind = "conc" /\ e.ev = "caller" THEN [s EXCEPT !.seen = @ \cup {e.i}] ELSE s
+MStep(s, e) == IF (s.kind = "conc" /\ e.ev = "caller") \/ (s.kind = "retain" /\ e.ev = "retained")
+               THEN [s EXCEPT !.seen = @ \cup {e.i}] ELSE s
 
 MWhy(s, e) ==
   CASE s.kind = "pick" -> IF e.ev = "submit" THEN PickWhy(s, e) ELSE "unknown-event"
     [] s.kind = "conc" -> ConcWhy(s, e)
+    [] s.kind = "retain" -> IF e.ev = "retained" THEN "retained-response-shows-another-call" ELSE "retained-responses-missing"
+    [] s.kind = "clientlat" ->
+         IF e.ev # "wire" THEN "unknown-event"
+         ELSE IF ~e.result_ok \/ e.requests # 1 THEN "exchange-failed"
+         ELSE IF e.rt_marker /\ s.opc # "none" THEN "operation-client-went-through-the-transport-wide-round-tripper"
+         ELSE IF e.rt_cookie /\ s.opc # "none" THEN "operation-client-sent-the-transport-wide-cookies"
+         ELSE "operation-client-not-used-as-given"
     [] OTHER -> "data-race-reported"
 
 TheTrace == ndJsonDeserialize(IOEnv.TRACE_FILE)
